@@ -52,9 +52,24 @@ def make_replayer(binary, base_args, env=None, prefix=()):
 # ------------------------------------------------------------------ replay of a stored file
 
 def replay(pid, path):
+    """Re-executes a stored violation.  Replays that name a single harness case rebuild
+    that harness and run just the case; others (digest comparisons, tool invocations,
+    special builds) re-run the property's check and look for the same signature."""
     with open(path) as f:
         body = json.load(f)
     spec = body.get("replay") or {}
+    if not spec or "special" in spec or not body.get("case") or "sources" not in spec:
+        import io, contextlib
+        buf = io.StringIO()
+        with contextlib.redirect_stdout(buf):
+            rc = REGISTRY[pid](body.get("tier", "quick"), int(body.get("seed", 1)))
+        out = buf.getvalue()
+        if rc == vplib.EXIT_VIOLATION and body["signature"] in out:
+            print("VIOLATION property=%s replay=%s" % (pid, path))
+            print("  reproduced by re-running the check: signature %s" % body["signature"])
+            return vplib.EXIT_VIOLATION
+        print("%s: replay %s did not reproduce on this tree (check exit %d)" % (pid, path, rc))
+        return vplib.EXIT_HELD if rc != vplib.EXIT_ENGINE else vplib.EXIT_ENGINE
     st = new_stage()
     lib = mkbuild(spec.get("build", "shipped")).build(st)
     binary = build_harness(st, lib, "replay", spec["sources"], wraps=spec.get("wraps", []),
